@@ -410,7 +410,7 @@ func (e *Env) Addr(x ast.Expr) (Term, types.Type, error) {
 			return Term{}, nil, err
 		}
 		if sl, ok := under(v.Ty).(*types.Slice); ok {
-			return vc.elemAddr(App(SRef, "sarr", v.T), App(SInt, "+", App(SInt, "soff", v.T), i.T)), sl.Elem(), nil
+			return slElem(v.T, i.T), sl.Elem(), nil
 		}
 		if pt, ok := under(v.Ty).(*types.Pointer); ok {
 			if at, ok := under(pt.Elem()).(*types.Array); ok {
@@ -442,7 +442,7 @@ func (e *Env) evalIndex(n *ast.IndexExpr) (SVal, error) {
 	}
 	switch t := under(v.Ty).(type) {
 	case *types.Slice:
-		addr := vc.elemAddr(App(SRef, "sarr", v.T), App(SInt, "+", App(SInt, "soff", v.T), i.T))
+		addr := slElem(v.T, i.T)
 		return SVal{vc.load(e.st, addr, vc.tc.SortOf(t.Elem())), t.Elem()}, nil
 	case *types.Map:
 		i = e.coerce(i, t.Key())
